@@ -60,7 +60,18 @@ impl Expression for Array {
 
             // If any expression aborts, the entire array aborts
             if type_def.is_never() {
-                return TypeInfo::new(state, TypeDef::never().maybe_fallible(fallible));
+                // ... but what this element and the earlier ones may `return` is still returned
+                let returns = type_defs
+                    .iter()
+                    .fold(type_def.returns().clone(), |returns, type_def: &TypeDef| {
+                        returns.union(type_def.returns().clone())
+                    });
+                return TypeInfo::new(
+                    state,
+                    TypeDef::never()
+                        .maybe_fallible(fallible)
+                        .with_returns(returns),
+                );
             }
             type_defs.push(type_def);
         }
